@@ -287,6 +287,51 @@ def euclidean_feature_transform(input_array, sampling, ft):
     CALLS.append(("euclidean_feature_transform", {"shape": a.shape}))
 
 
+def find_objects(input, max_label=0):
+    """scipy.ndimage.find_objects: per label 1..max the tuple of slices of its bounding box (None if the label is absent)"""
+    if isinstance(input, rnp.ndarray):
+        input = symnp.from_numpy(input)
+    a = input
+    if a.dtype == BOOLDT:
+        labels = [True]
+        cells = [ctruth(c) for c in a.cells]
+        eq = lambda c, l: c
+    else:
+        from .sym import interval
+        mx = a.max()
+        iv = interval(mx.t) if isinstance(mx, SNum) else None
+        top = ENG.concretize(mx.t, max(0, iv[0]), iv[1]) if isinstance(mx, SNum) and mx.concrete() is None else int(mx.concrete() if isinstance(mx, SNum) else mx)
+        if max_label:
+            top = max_label
+        labels = list(range(1, top + 1))
+        cells = a.cells
+        eq = lambda c, l: symnp._cell_cmp(c, l, "eq")
+    cs = coords(a.shape)
+    out = []
+    for l in labels:
+        ms = [eq(c, l) for c in cells]
+        present = [m for m in ms if m is not False]
+        if not present or not (builtins.any(m is True for m in present) or ENG.branch(z3.Or([m for m in present if m is not True]) if len([m for m in present if m is not True]) > 1 else [m for m in present if m is not True][0])):
+            out.append(None)
+            continue
+        sl = []
+        for ax in range(a.ndim):
+            def slab(k):
+                hits = [ms[i] for i, c in enumerate(cs) if c[ax] == k and ms[i] is not False]
+                if builtins.any(h is True for h in hits):
+                    return True
+                sy = [h for h in hits]
+                if not sy:
+                    return False
+                return ENG.branch(z3.Or(sy) if len(sy) > 1 else sy[0])
+            first = next(k for k in range(a.shape[ax]) if slab(k))
+            last = next(k for k in reversed(range(a.shape[ax])) if slab(k))
+            sl.append(slice(first, last + 1, None))
+        out.append(tuple(sl))
+    CALLS.append(("find_objects", {"shape": a.shape}))
+    return out
+
+
 _skel_cache = {}
 
 
@@ -319,6 +364,7 @@ def default_fakes(np_module):
     nd.generate_binary_structure = real_ndimage.generate_binary_structure
     nd.binary_erosion = binary_erosion
     nd.label = scipy_label
+    nd.find_objects = find_objects
     ndi = types.ModuleType("scipy.ndimage._nd_image")
     ndi.euclidean_feature_transform = euclidean_feature_transform
     nd._nd_image = ndi
